@@ -1,6 +1,15 @@
 #include "fact.h"
 #include <fenv.h>
 
+/* quiescent-point invariant of the caller-workspace stack: when a factorization has returned, its temporaries at the tail are released
+   (top2 back at size) and the bytes accounted as used are exactly the head (every allocation adds to used and to one of the two ends) */
+static void ws_accounting_check(const GlobalLU_t *Glu, int_t info, int n, const char *who)
+{
+    if (Glu->MemModel != USER || info < 0 || info > n + 1) return;
+    if (Glu->stack.top2 != Glu->stack.size || Glu->stack.used != Glu->stack.top1)
+        vf_sticky_storage_viol("workspace-accounting-broken", "%s returned info=%lld with the workspace stack in the state used=%lld top1=%lld top2=%lld size=%lld: after the work arrays are released used must equal the head and the tail must be empty (a later refactorization in this workspace starts from these numbers)",
+                               who, (long long)info, (long long)Glu->stack.used, (long long)Glu->stack.top1, (long long)Glu->stack.top2, (long long)Glu->stack.size);
+}
 void fact_do(const vf_api *P, const vf_mat *A, const superlu_options_t *opt, const int *my_permc,
              void *work, int_t lwork, int ilu, fact_run *R)
 {
@@ -22,6 +31,7 @@ void fact_do(const vf_api *P, const vf_mat *A, const superlu_options_t *opt, con
     R->fp_inexact = fetestexcept(FE_INEXACT) != 0;
     int mn = A->m < A->n ? A->m : A->n;
     R->have_LU = (R->info >= 0 && R->info <= mn && lwork != -1);
+    if (lwork > 0 && R->have_LU) ws_accounting_check(&R->Glu, R->info, mn, ilu ? "?gsitrf" : "?gstrf");
     /* the four initial requests of ?LUMemInit are not growths in flight */
     R->growths = lwork > 0 ? vf_growth_ws() - gw0 : lwork == 0 ? vf_growth_sys() - gs0 - 4 : -1;
     if (R->growths < 0 || !R->have_LU) R->growths = -1;
@@ -48,6 +58,7 @@ void fact_redo(const vf_api *P, const vf_mat *A2, fact_t mode, void *work, int_t
     R->fp_inexact = fetestexcept(FE_INEXACT) != 0;
     int mn = R->m < R->n ? R->m : R->n;
     R->have_LU = (R->info >= 0 && R->info <= mn);
+    if (lwork > 0 && R->have_LU) ws_accounting_check(&R->Glu, R->info, mn, "?gstrf (refactorization)");
     long init = mode == SamePattern_SameRowPerm ? 0 : 4;     /* storage of the earlier factorization is reused: no initial requests */
     R->growths = lwork > 0 ? vf_growth_ws() - gw0 : vf_growth_sys() - gs0 - init;
     if (R->growths < 0 || !R->have_LU) R->growths = -1;
@@ -165,6 +176,7 @@ void xdrv_call(xdrv *D, superlu_options_t *opt)
     if (opt->Fact != FACTORED && D->lwork != -1) {
         D->have_LU = (D->info >= 0 && D->info <= D->n + 1);
         D->lu_in_work = D->lwork > 0;
+        if (D->lwork > 0 && D->have_LU) ws_accounting_check(&D->Glu, D->info, D->n, D->ilu ? "?gsisx" : "?gssvx");
     }
 }
 void xdrv_free_factors(xdrv *D)
